@@ -76,6 +76,9 @@ impl TwoFloat {
     /// assert!((b - c).abs() < 1e-10);
     /// ```
     pub fn acosh(self) -> Self {
+        if self < 1.0 {
+            return Self::NAN;
+        }
         (self + (self * self - 1.0).sqrt()).ln()
     }
 
